@@ -42,6 +42,13 @@ def toEv (l : Line) : Option (Option Ev) :=
   | "jt.dtor" => some (some (.jtDtor o x))
   | "jt.stop" => some (some (.jtStop o x (y != 0)))
   | "jt.joined" => some (some (.jtJoined o x))
+  | "jt.skip" => some (some (.jtSkip o x))
+  | "jn.mvctor" => some (some (.mvCtor o x (if y == 0 then none else some y)))
+  | "jn.mvassign" => some (some (.mvAssign o x (if y == 0 then none else some y)))
+  | "jn.mvterm" => some (some (.mvTerm o x))
+  | "jn.swap" => some (some (.swap o x (if y == 0 then none else some y)))
+  | "jn.dtor" => some (some (.dtorOk o x))
+  | "jn.dtorterm" => some (some (.dtorTerm o x))
   | _ => none
 
 def accept (s : St) : List Line → Nat → Nat → Except (Nat × String) (St × Nat)
@@ -78,6 +85,8 @@ def monStep (m : Mon) (l : Line) : Mon :=
       else { m with fails := s!"join by task {l.a} on handle {l.obj} completed before the thread function of task {t} returned" :: m.fails }
     | none => { m with fails := s!"join by task {l.a} completed without a checked target" :: m.fails }
   | "ip.test" => if l.a != 0 then { m with hit := l.obj :: m.hit } else m
+  | "jn.dtorterm" => { m with fails := s!"std::terminate event: handle {l.obj} destroyed while joinable" :: m.fails }
+  | "jn.mvterm" => { m with fails := s!"std::terminate event: move assignment onto the joinable handle {l.obj}" :: m.fails }
   | "jn.interrupted" =>
     if m.hit.contains l.obj then m
     else { m with fails := s!"task {l.obj} ended by an interruption that no interruption point delivered" :: m.fails }
@@ -103,6 +112,8 @@ def runCase (c : Case) : String :=
       s.jpc t != .out || s.tok t != 0 || s.mtx t != none ||
       !(s.phase t == .fresh || s.phase t == .exited || s.phase t == .body) || (s.dt t).isSome)
     let fin := if bad.isEmpty || c.status != "ok" then "final ok" else s!"final MISMATCH: not at rest {bad.take 5}"
+    -- (C13m) `errs` = number of std::terminate events the model accepted; also reported by the monitor above
+    let fin := if s.errs == 0 then fin else s!"final MISMATCH: {s.errs} std::terminate event(s)"
     s!"case {c.id} accept {n} ; {fin} ; {monS}"
 
 end Driver.JoinDrv
